@@ -163,6 +163,18 @@ namespace tc {
         }
     }
 
+    // a single (value, length) case
+    template<class Rep, int E, int R>
+    void sc_one(Rep v, int len)
+    {
+        using T = scaled_integer<Rep, power<E, R>>;
+        T x = _impl::from_rep<T>(v);
+        printf("%s sc %s %d ", table, tn<T>().c_str(), len);
+        prv(v);
+        fputs(" => ", stdout);
+        call(len, [&](char* f, char* l) { return cnl::to_chars(f, l, x); });
+    }
+
     ////////////////////////////////////////////////////////////////////////////////
     // fixed-capacity variants: to_chars_static | to_string / string_view | operator<< | to_chars at capacity
 
@@ -210,7 +222,24 @@ namespace tc {
             failed(rc);
     }
 
-    // to_chars_static<Base>(integer): the capacity is computed for base 10 whatever the base
+    // to_chars_static<Base>(integer): prints `<length>:<array>` (the array has capacity(Base) + 1 cells)
+    template<int Base, class T>
+    void fixb_run(T const& v)
+    {
+        int rc = sigsetjmp(jb, 1);
+        if (rc == 0) {
+            arm(1500);
+            vh::armed = 1;
+            auto st = cnl::to_chars_static<Base>(v);
+            vh::armed = 0;
+            arm(0);
+            printf("%d:", st.length);
+            enc(st.chars.data(), st.chars.size());
+            putchar('\n');
+        } else
+            failed(rc);
+    }
+
     template<class T, int Base>
     void fixb_sweep(std::vector<T> const& values)
     {
@@ -218,19 +247,56 @@ namespace tc {
             printf("%s fixb %s %d ", table, tn<T>().c_str(), Base);
             prv(v);
             fputs(" => ", stdout);
-            int rc = sigsetjmp(jb, 1);
-            if (rc == 0) {
-                arm(1500);
-                vh::armed = 1;
-                auto st = cnl::to_chars_static<Base>(v);
-                vh::armed = 0;
-                arm(0);
-                printf("%d:", st.length);
-                enc(st.chars.data(), st.chars.size());
-                putchar('\n');
-            } else
-                failed(rc);
+            fixb_run<Base>(v);
         }
+    }
+
+    // every base 2..36 at the limits of the type (and the values next to them), plus the capacity in every base
+    template<class T, int... Is>
+    void fixb_bases(std::vector<T> const& values, std::integer_sequence<int, Is...>)
+    {
+        (fixb_sweep<T, 2 + Is>(values), ...);
+    }
+    template<class T>
+    void fixb_all(Rng& rng)
+    {
+        using L = std::numeric_limits<T>;
+        std::vector<T> values{L::lowest(), T(L::lowest() + 1), T(L::max() - 1), L::max(), T(0), T(1), T(L::max() / 2), T(L::max() / 2 + 1)};
+        if constexpr (L::is_signed) {
+            values.push_back(T(-1));
+            values.push_back(T(L::lowest() / 2));
+        }
+        std::vector<T> const some = vals<T>(rng, 2);
+        values.push_back(some[rng.below(int(some.size()))]);
+        fixb_bases<T>(values, std::make_integer_sequence<int, 35>{});
+        for (int base = 2; base <= 36; ++base)
+            printf("%s capb %s %d => %d\n", table, tn<T>().c_str(), base, int(_impl::to_chars_capacity<T>{}(base)));
+    }
+
+    // the same for wide_integer<D, int> (cnl::to_chars does not compile for multi-limb unsigned wide integers):
+    // values are named, not printed: max, -max (the most negative value is outside the documented domain), 1, -1, half
+    template<int D, int Base>
+    void fixbw_one()
+    {
+        using W = cnl::wide_integer<D, int>;
+        W const mx = std::numeric_limits<W>::max();
+        W const half = W(mx >> 1) + W(1);
+        W const vs[] = {mx, W(-mx), W(1), W(-1), half, W(-half)};
+        char const* names[] = {"max", "-max", "1", "-1", "half", "-half"};
+        for (int k = 0; k < 6; ++k) {
+            printf("%s fixbw %d %d %s => ", table, D, Base, names[k]);
+            fixb_run<Base>(vs[k]);
+        }
+    }
+    template<int D, int... Is>
+    void fixbw_bases(std::integer_sequence<int, Is...>)
+    {
+        (fixbw_one<D, 2 + Is>(), ...);
+    }
+    template<int D>
+    void fixbw_all()
+    {
+        fixbw_bases<D>(std::make_integer_sequence<int, 35>{});
     }
 
     template<class T, class V>
@@ -300,6 +366,11 @@ void wide_cap_one(char const* table)
 {
     printf("%s capw %d s => %d\n", table, D, int(cnl::_impl::to_chars_capacity<cnl::wide_integer<D, int>>{}()));
     printf("%s capw %d u => %d\n", table, D, int(cnl::_impl::to_chars_capacity<cnl::wide_integer<D, unsigned>>{}()));
+    // ... and in every other base
+    for (int base = 2; base <= 36; ++base) {
+        printf("%s capwb %d s %d => %d\n", table, D, base, int(cnl::_impl::to_chars_capacity<cnl::wide_integer<D, int>>{}(base)));
+        printf("%s capwb %d u %d => %d\n", table, D, base, int(cnl::_impl::to_chars_capacity<cnl::wide_integer<D, unsigned>>{}(base)));
+    }
 }
 template<int Lo, int... Is>
 void wide_caps_seq(char const* table, std::integer_sequence<int, Is...>)
